@@ -83,7 +83,8 @@ def build_sensb(nfcid0, fsci=8, fwi=4, sfgi=None, appdata=bytes(4), bitrates=0x0
 class T4TCard(object):
     def __init__(self, kind="A", fsci=8, fwi=4, sfgi=0, ats=None, ats_opts=None, sensb_res=None, attrib_res=b"\x00",
                  uid=None, apps=("v2",), files=None, access=None, mle=255, mlc=255, eof="6282", select_fci=None,
-                 resp_chunk=None, ext_apdu=True, odo=True, strict_fsc=False, le_less_read="6700", ext_atqb=False):
+                 resp_chunk=None, ext_apdu=True, odo=True, strict_fsc=False, le_less_read="6700", ext_atqb=False,
+                 upd_limit=None, upd_beyond="std"):
         self.kind = kind
         self.brty = "106" + kind
         self.fsci, self.fwi, self.sfgi = fsci, fwi, sfgi
@@ -106,6 +107,13 @@ class T4TCard(object):
         self.select_fci = select_fci             # bytes returned by SELECT by name when Le is present
         self.resp_chunk = resp_chunk             # INF bytes per response block (default: min(FSD, FSC) - 3)
         self.ext_apdu, self.odo, self.strict_fsc = ext_apdu, odo, strict_fsc
+        # UPDATE BINARY range check.  upd_limit: fid -> number of bytes of the EF the card lets UPDATE BINARY reach (a card
+        # that enforces the maximum NDEF file size of its CC although the EF is physically larger); default: the physical
+        # EF size, i.e. bytes behind the declared maximum size are silently writable (legal: the CC value is a promise to the
+        # reader, not a property of the EF).  upd_beyond: status word of a refused update, "std" = 6B00 when the offset lies
+        # behind the end and 6700 when offset + Lc reaches behind it; or a fixed "6A84" / "6B00" / "6700" as seen on products
+        self.upd_limit = dict(upd_limit or {})
+        self.upd_beyond = upd_beyond
         # hooks
         self.responder = None      # callable(apdu) -> response bytes | None (fall through to the file system)
         self.apdu_script = None    # callable(n, apdu) -> response bytes | "mute" | None   (n-th executed APDU)
@@ -434,10 +442,11 @@ class T4TCard(object):
         if fid == ref.CC_FID or self._acc(fid)[1] != 0x00:
             return 0x6982
         f = self.files[fid]
-        if off > len(f):
-            return 0x6B00
-        if off + len(data) > len(f):
-            return 0x6700
+        end = min(len(f), self.upd_limit.get(fid, len(f)))
+        if off > end or off + len(data) > end:
+            if self.upd_beyond == "std":
+                return 0x6B00 if off > end else 0x6700
+            return int(self.upd_beyond, 16)
         f[off:off + len(data)] = data
         self.write_log.append((fid, off, bytes(data)))
         self.on_state_change()
@@ -502,7 +511,8 @@ def make_card(lay, msg=b"", guard=0):
     """layout dict -> T4TCard with a well-formed CC and an NDEF file of exactly lay['fsize'] (+ guard) bytes
 
     lay: kind A|B, fsci, fwi, ver (10h/20h/30h), tlv (4|6), mle, mlc, fsize, fid, rd, wr, eof, fill, tail (bytes),
-         decoy (bool: a second, unrelated EF next to the NDEF file), fci (bytes), chunk (response INF size)
+         decoy (bool: a second, unrelated EF next to the NDEF file), fci (bytes), chunk (response INF size),
+         enforce ("physical" | "declared": where UPDATE BINARY is range checked), beyond_sw ("std" | "6A84" | "6B00" | "6700")
     """
     tlv = lay.get("tlv", 4)
     fid = lay.get("fid", 0xE104)
@@ -519,7 +529,9 @@ def make_card(lay, msg=b"", guard=0):
                    apps=("v1",) if ver == 1 else (("v2", "v1") if lay.get("both_aids") else ("v2",)),
                    files=files, mle=lay["mle"], mlc=lay["mlc"], eof=lay.get("eof", "6282"),
                    select_fci=lay.get("fci"), resp_chunk=lay.get("chunk"), odo=(ver >= 3),
-                   access={fid: (lay.get("rd", 0), lay.get("wr", 0))})
+                   access={fid: (lay.get("rd", 0), lay.get("wr", 0))},
+                   upd_limit={fid: lay["fsize"]} if lay.get("enforce") == "declared" else None,
+                   upd_beyond=lay.get("beyond_sw", "std"))
     card.ndef_fid = fid
     card.declared_size = lay["fsize"]
     return card
